@@ -13,6 +13,7 @@ package PKG
 import (
 	"bytes"
 	"encoding/json"
+	"errors"
 	"io"
 )
 
@@ -141,4 +142,29 @@ func vmJSONDecode(d *json.Decoder, v any) error {
 		return vJSONUnmarshalUseNumber(data, v)
 	}
 	return json.Unmarshal(data, v)
+}
+
+// Indentation and compaction change white space only: the document is the same.
+
+//verif:redirect encoding/json.MarshalIndent
+func vmJSONMarshalIndent(v any, prefix, indent string) ([]byte, error) { return json.Marshal(v) }
+
+var vmJSONSyntax = errors.New("vjsonio: invalid JSON")
+
+//verif:redirect encoding/json.Compact
+func vmJSONCompact(dst *bytes.Buffer, src []byte) error {
+	if !json.Valid(src) {
+		return vmJSONSyntax
+	}
+	dst.Write(src)
+	return nil
+}
+
+//verif:redirect encoding/json.Indent
+func vmJSONIndent(dst *bytes.Buffer, src []byte, prefix, indent string) error {
+	if !json.Valid(src) {
+		return vmJSONSyntax
+	}
+	dst.Write(src)
+	return nil
 }
